@@ -174,14 +174,14 @@ PROPS["C01"] = dict(
                 "exact": "4 × {40 nm (b/a ∈ [1/2, 2]), 96 nm ([1/4, 4])} × …", "delegation / line forms": "bit-for-bit",
                 "ranges": "exact (decided in Lean)"},
     level_text=("Theorems: the Maxima-generated series tables A1, C1, A2, C2 of Geodesic.cpp (re-extracted each run) equal the Taylor coefficients of "
-                "their generating functions (binomial series of √(1+k² sin²σ) and its reciprocal) as exact rationals (decide +kernel); the Clenshaw "
+                "their generating functions (binomial series of √(1+k² sin²σ) and its reciprocal) as exact rationals (decide +kernel); the C1′ table reverts C1 (composition = identity mod ε^(N+1), truncated trigonometric-series CAS) and the bivariate tables A3, C3 are the mean and the cos 2lσ coefficients of the I3 integrand (2−f)/(1+(1−f)√(1+k² sin²σ)), f = 2n/(1+n), expanded to total degree N−1 in (n, ε) (and, as a second route, satisfy integrand × denominator = 2(1−ε)) — every table entry is determined; the Clenshaw "
                 "loop SinCosSeries equals the trigonometric sum it represents, for every coefficient vector and argument (ℝ). The implementation is "
                 "compared with a specification oracle (defining integrals by Gauss–Legendre quadrature in 80-bit arithmetic, independent of the "
                 "library) for position, azimuth, distance/arc and unrolled longitude in all four solver configurations; output ranges are decided in "
                 "Lean on every sampled result. Partial: the nanometre error bound of the floating-point solver is not a theorem."),
     level_note="series tables and the series order regenerated from Geodesic.cpp; oracle in x87 long double (≈1e-19 relative); published accuracy figures × 4 as tolerance",
     technique="Lean 4 table certificates (decide +kernel over exact rationals) and exact-real Clenshaw theorem + oracle correspondence",
-    assumptions=["the generating functions are those of Karney (2013) eqs. 15–18, 41–43 (not re-derived from the integrals in Lean)"],
+    assumptions=["the generating functions / defining relations are those of Karney (2013) eqs. 8, 15–25, 41–43 (integrands and Fourier structure taken from the paper and maxima/geod.mac, not re-derived from the integrals in Lean)"],
 )
 
 PROPS["C03"] = dict(
@@ -193,13 +193,12 @@ PROPS["C03"] = dict(
                 "EllipsoidArea": "8 ulp of 4π c2"},
     level_text=("Theorems: J12 assembled as m0·σ12 + (A1 B1 − A2 B2) equals the combined-series form used when DISTANCE is not requested (ring identity, "
                 "so m12, M12, M21 do not depend on it); the sign bookkeeping of S12 (swapp·lonsign·latsign) and the M12↔M21 exchange under reversal; "
-                "table certificates A1, C1, A2, C2 shared with C01. m12, M12, M21, S12 from the direct, inverse and line interfaces of both solvers are "
+                "table certificates A1, C1, A2, C2 shared with C01; the area-series table C4: Σ(2l+1)C4_l sin((2l+1)σ) equals the I4 integrand [t(e′²) − t(k² sin²σ)]/(e′² − k² sin²σ)·sin σ/2 (Karney 2013 eq. 60–61, e′² = 4n/(1−n)², k² = 4ε/(1−ε)²) expanded to total degree N−1 in (n, ε), and, as a second route, the multiplied-out relation modulo total degree N+1 — every entry is determined (decide +kernel). m12, M12, M21, S12 from the direct, inverse and line interfaces of both solvers are "
                 "compared with the defining expressions evaluated by quadrature in 80-bit arithmetic; reversal, the published addition rules, "
-                "interface agreement, triangle sums and EllipsoidArea = 4πc² are oracles on the implementation. Partial: the C4 area-series table is "
-                "not yet certified in Lean (covered by the oracle)."),
+                "interface agreement, triangle sums and EllipsoidArea = 4πc² are oracles on the implementation. Partial: the accuracy of the floating-point evaluation is covered by the oracle only, not by a theorem."),
     level_note="oracle as in C01 plus the area integrand I4 (Karney 2013 eq. 59–61); S12 is not compared where the path touches a pole (it is discontinuous there)",
     technique="Lean 4 algebraic identities and table certificates + quadrature-oracle correspondence",
-    assumptions=["S12 compared modulo 2πc² for multi-circuit lines"],
+    assumptions=["S12 compared modulo 2πc² for multi-circuit lines", "the I4 integrand is that of Karney (2013) eqs. 60–61 / computeI4 of maxima/geod.mac; t(x) enters through the power series solving its ODE (checked)"],
 )
 
 PROPS["C02"] = dict(
